@@ -286,9 +286,9 @@ def rule_bp(progs, tier, name="BPTAB", only=None):
                 ps = sorted({p for p in (0, 1, 2, 31, 32, 62, 63, 64, 65, 127, 128, 511, 512, 513, 2047, 2048, 2049, L // 2 - 1, L // 2, L // 2 + 1, L - 2, L - 1, L, L + 1) if 0 <= p <= L + 1})
             for opn, d in OPS:
                 pp = ps
-                if marks is not None and tier != "thorough" and opn in ("find_open", "enclose", "parent"):
+                if marks is not None and opn in ("find_open", "enclose", "parent"):
                     # backward scans are linear in the real code: a thinner position set on the large strings
-                    pp = ps[:: 8 if opn == "find_open" else 4]
+                    pp = ps[:: (8 if opn == "find_open" else 4) if tier != "thorough" else (9 if opn == "find_open" else 5)]
                 for p in pp:
                     got = opt(I.call(T + opn, [r, p]))
                     exp = getattr(spec, opn)(p) if spec is not None else d(bits, p)
@@ -345,7 +345,7 @@ def rule_bp(progs, tier, name="BPTAB", only=None):
                         if b_:
                             bad = b_
                             break
-                if bad is None and (cname == "new" or tier == "thorough"):
+                if bad is None and (cname == "new" or (tier == "thorough" and cname in ("new_with_cspoppy", "assemble_with_rate(256)", "from_words(borrowed)"))):
                     for bits, marks in l2:
                         n, b_ = run_case(cname, fid, mk, has_select, bits, M64 if len(bits) % 64 else 0, False, marks)
                         total += n
